@@ -504,6 +504,29 @@ def run(prog, check):
             rk_ = e_.role.key()
             if len(rk_) == 4 and rk_[1] == 'loop' and 'registered_flows' in str(rk_[2]) and rk_[3] in (0, 1):
                 legs_[rk_[3]].append(e_)
+    def atomic_kinds(c_):
+        if c_.kind in ('and', 'or', 'not'):
+            out_ = set()
+            for a_ in c_.args:
+                out_ |= atomic_kinds(a_)
+            return out_
+        if c_.kind == 'g':
+            return atomic_kinds(c_.args[0])
+        return {c_.kind}
+    skipping = []
+    for i_ in (0, 1):
+        for e_ in legs_[i_]:
+            ks_ = set()
+            for g_ in e_.guards:
+                ks_ |= atomic_kinds(g_.cond)
+            extra_ = ks_ - {'samezone', 'isnone'}
+            if extra_:
+                skipping.append((e_, sorted(extra_), [repr(g_) for g_ in e_.guards]))
+    check.ob('C06.R2', '%s::every-registered-flow-is-booked' % gen_.key, not skipping, skipping[0][0].where if skipping else gen_.where,
+             'a registered flow is booked whenever the generator runs: only the currency-zone test decides how' if not skipping else
+             'a registered flow is booked only under %s: identical registrations (or a flow already seen) are dropped, so repeated '
+             'flows no longer accumulate' % skipping[0][2][:2],
+             'the same flow registered twice (two identical RegisterCashFlow calls)')
     for i_, nm_ in ((0, 'source'), (1, 'target')):
         want_ = ('P', 'elem', 'registered_flows()', 3 + i_)
         bad_ = [e_ for e_ in legs_[i_] if not (hasattr(e_.income, 'key') and e_.income.key() == want_)]
